@@ -64,6 +64,8 @@ func runC15(c *an.Ctx) {
 		all = append(all, w)
 	}
 	r1512(c, all)
+	r061as(c, "R15.13") // a page read with a mask does not alter the stored items: their key fields are what the next token is built from (shared with R06.1)
+	c.Min("R15.13", 3)
 	c.Min("R15.12", 7)
 	// the handlers that do not sort themselves binary-search the listing by `id > lastKey` (byte order): that is
 	// only right if Collection.List hands the items over in ascending byte order of their ids
